@@ -44,7 +44,10 @@ ASSUMPTIONS = [
     "release, so its order is a happens-before witness; path numbering; the term printer",
     "schedules of the implementation are steered (director gates) and sampled, not enumerated; only acceptance is "
     "checked, never a specific schedule",
-    "a plugin entered after its attempt's deadline (machine load) taints a run: it is re-run, and excluded if it persists",
+    "machine load taints a run in two recognisable ways - a plugin entered after its attempt's deadline (late_start); a plugin "
+    "that returned before its deadline while the engine looked at the answer only after the deadline and recorded a timeout "
+    "(late_end; the same signature BEFORE the deadline is not excused) - such a run is re-run in a fresh child, and excluded and "
+    "counted if it persists",
     "Not covered: durability below the Update* return; back-off durations; goroutines that emit no observable event",
 ]
 
@@ -90,6 +93,10 @@ def describe_reject(r):
     if r[0] == 3:
         return "shape not well-formed (concurrency 0)"
     return "accepted"
+
+
+def _is_panic(c):
+    return c.get("kind") == "panic" or c.get("note", "").startswith("panic")
 
 
 def _is_hang(c):
@@ -151,7 +158,9 @@ def _dist(cases):
              scripted_nonok_actions=fw.histogram(col("scripted_nonok_actions")), plugin_outcomes_observed=outcomes,
              events_per_trace=fw.histogram([(e // 25) * 25 for e in col("events")]),
              holds=fw.histogram(col("holds")), director_steps=fw.histogram(col("director_steps")),
-             hang_reruns=fw.histogram(col("hang_reruns")), late_reruns=fw.histogram(col("late_reruns")))
+             hang_reruns=fw.histogram(col("hang_reruns")), late_reruns=fw.histogram(col("late_reruns")),
+             forced_deferred=fw.histogram(col("forced_deferred")), racing_starts=fw.histogram(col("racing_starts")),
+             start_ok=fw.histogram(col("start_ok")))
     for k in ("final_stage", "gate_level", "gate_fail", "gate_mask", "tol_family", "failing_seqs", "cont_fail_run",
               "cont_where", "conc_vs_seqs", "failing_action_pos"):
         v = col(k)
@@ -203,6 +212,16 @@ def run_engine_check(ctx, profile, n_quick, n_thorough, extra_header="", monitor
     harness_wall = time.time() - t_h
     ctx.oblige("harness run completes", True)
 
+    panics = [c for c in cases if _is_panic(c)]
+    cases = [c for c in cases if not _is_panic(c)]
+    if panics:
+        # the process running the engine died (a Go panic / log.Fatalf): an observation of the case it was running,
+        # and a concrete violation for every engine property (nothing holds of a plan whose engine crashed)
+        c = panics[0]
+        ctx.violation(dict(kind="panic", case=c["id"], profile=c["input"].get("profile"), index=c["input"].get("index"),
+                           case_seed=c["input"].get("seed"), input=c["input"], observed=c.get("observed"), note=c.get("note", ""),
+                           why="the process running the engine panicked while running this case (%d cases)" % len(panics),
+                           panicking_cases=[x["id"] for x in panics[:30]], replay_cmd="./check %s --replay <this file>" % ctx.pid))
     hangs = [c for c in cases if _is_hang(c)]
     late = [c for c in cases if not _is_hang(c) and c["dist"].get("late_start")]
     live = [c for c in cases if not _is_hang(c) and not c["dist"].get("late_start")]
@@ -328,7 +347,9 @@ def run_engine_check(ctx, profile, n_quick, n_thorough, extra_header="", monitor
         traces_validated_against_impl=len(live),
         accepted_by_automaton=accepted, rejected_by_automaton=len(live) - accepted,
         monitor_false={m: len(v) for m, v in mon_bad.items()},
-        hangs=len(hangs), excluded_late_start=len(late), neighbour_search=neighbour,
+        hangs=len(hangs), panics=len(panics), excluded_late_start=len(late), neighbour_search=neighbour,
+        late_start=sum(c["dist"].get("late_starts", 0) for c in late), late_end=sum(c["dist"].get("late_ends", 0) for c in late),
+        late_reruns=sum(c["dist"].get("late_reruns", 0) for c in cases),
         events_total=sum(c["dist"].get("events", 0) for c in live),
         distribution=_dist(cases),
         harness_wall_s=round(harness_wall, 1), coq_wall_s=round(coq_wall, 1),
@@ -356,7 +377,21 @@ def _replay(ctx, header, mons, release_obligation):
         verdict.append((recorded, res[0], acc, bad, why))
     fresh = []
     if prof and idx is not None and prof != "finalfn":
-        fresh = _harness(ctx, prof, 1, "replay.jsonl", ["-only", str(idx), "-reps", "20"], seed=seed) or []
+        inp = rp.get("input") or {}
+        opts = inp.get("opts") or {}
+        args = ["-only", str(idx), "-reps", "20"]
+        if opts.get("DeferredP"):
+            args += ["-deferred", str(opts["DeferredP"])]
+        if opts.get("RaceStart"):
+            args += ["-racestart", str(opts["RaceStart"])]
+        if inp.get("poll"):
+            args += ["-poll"]
+        fresh = _harness(ctx, prof, 1, "replay.jsonl", args, seed=seed) or []
+        pan = [c for c in fresh if _is_panic(c)]
+        fresh = [c for c in fresh if not _is_panic(c)]
+        if pan:
+            ctx.violation(dict(kind="panic", case=pan[0]["id"], input=pan[0]["input"], observed=pan[0].get("observed"), note=pan[0].get("note", ""),
+                               why="replay: the process running the engine panicked (%d of %d runs)" % (len(pan), len(pan) + len(fresh))), tag="replay")
         hang = [c for c in fresh if _is_hang(c)]
         live = [c for c in fresh if not _is_hang(c)]
         res, _ = evaluate(ctx, "replay", live, header, ok_fn="eng_mon_ok")
